@@ -348,6 +348,9 @@ class Concrete:
     def int64(self, name):
         return int(self._get(name, 0))
 
+    def bv(self, name, width):
+        return int(self._get(name, 0)) & ((1 << width) - 1)
+
     def str(self, name):
         return str(self._get(name, ""))
 
@@ -425,6 +428,10 @@ class Explorer:
             if self.decide(v == k):
                 return k
         return n - 1
+
+    def bv(self, name, width):
+        """a raw bit-vector (a C flag word): returned as a z3 term, which is what the C interpreter computes flag words with"""
+        return self._decl(name, z3.BitVec(name, width), "bv")
 
     def opt_int(self, name):
         isnone = self._decl(name + "?none", z3.Bool(name + "?none"), "bool")
